@@ -135,6 +135,32 @@ def pelt_l2_end_to_end_stream(ctx, count):
                      % (flist(Xn[:, 0]), fl(pen), m, fl(magf), fl(bf), nlist(cpts), flist(scores)))
         metas.append({"detector": "PELT", "cost": "L2Cost", "min_segment_length": m, "n": n, "p": 1, "data": kind, "X": Xn.tolist(), "penalty": pen, "Magf": magf, "Bf": bf,
                       "impl_changepoints": cpts, "impl_scores": [float(v) for v in scores]})
+        # the CONCLUSION of the theorem on the implementation's own output, in exact rational arithmetic: penalised residual sum of squares of the reported changepoints minus
+        # the optimum over all admissible segmentations (optimal partitioning on Fractions) must not exceed 3 n (delta + 2 u Mag) with the theorem's delta and Mag
+        from fractions import Fraction as _Fr
+        xs_q = [_Fr(float(v)) for v in Xn[:, 0]]
+        pre1, pre2 = [_Fr(0)], [_Fr(0)]
+        for v in xs_q:
+            pre1.append(pre1[-1] + v)
+            pre2.append(pre2[-1] + v * v)
+
+        def _rss(s_, e_):
+            return (pre2[e_] - pre2[s_]) - (pre1[e_] - pre1[s_]) ** 2 / (e_ - s_)
+        pen_q = _Fr(pen)
+        Fq = {0: -pen_q}
+        for t_ in range(m, n + 1):
+            Fq[t_] = min(Fq[s_] + _rss(s_, t_) + pen_q for s_ in [0] + list(range(m, t_ - m + 1)) if s_ in Fq)
+        bnds = [0] + cpts + [n]
+        own_q = sum(_rss(a_, b_) for a_, b_ in zip(bnds[:-1], bnds[1:])) + pen_q * len(cpts)
+        u53 = 2.0 ** -53
+        bound = 3 * n * ((4.2 * n + 6) * u53 * (n * (n + 1) * bf ** 2) + 2 * u53 * magf / (1 - u53))
+        gap = float(own_q - Fq[n])
+        ctx.count("binary64_l2_theorem_conclusion", "gap <= bound" if gap <= bound else "gap > bound")
+        if gap > bound:
+            ctx.violation(f"PELT(L2Cost) on one float column (n={n}, m={m}): the penalised residual sum of squares of the reported changepoints {cpts} exceeds the exact optimum by "
+                          f"{gap!r}, more than the proved bound {bound!r} of the binary64 run (C02_binary64_l2_end_to_end)", {"X": Xn.tolist(), "penalty": pen, "min_segment_length": m,
+                                                                                                                              "changepoints": cpts, "gap": gap, "bound": bound},
+                          {"what": "binary64-theorem-conclusion", "detector": "PELT"})
         ctx.case({"float": "pelt-l2-e2e", "it": it, "n": n, "m": m, "x0": float(Xn[0, 0])}, nontrivial=len(cpts) > 0,
                  sample={"stream": "binary64 end-to-end PELT(L2Cost)", "n": n, "m": m, "impl_changepoints": cpts})
         ctx.count("float_stream", "pelt-l2-end-to-end")
